@@ -48,6 +48,12 @@ def handle (op : String) (j : Json) : Option (R Json) :=
       let recs := segs.toList.map fun s => if segs.size == 1 then fitRecordXY s.2 else fitSegRecordXY s.2
       let cells := (idxList sh[0]! sh[1]!).map fun (i, k) => floatToJson (res i k)
       pure (okJ [("opd", Json.arr cells.toArray), ("recorded", Json.arr (recs.map pairJ).toArray)])
+  | "c04.fit_call_skips" => some do
+      -- does the call `fit_tilt()` take its early return (generated test)? observed through the model `fitTiltCall`
+      let se ← getBool j "shape_empty"; let sn ← getBool j "shape_none"
+      let n ← getInt j "opd_size"
+      let r := fitTiltCall (R := Float) se sn n 1 1 0 0 (fun _ _ => 0) (fun _ _ => 0) (fun _ => 0)
+      pure (okJ [("skips", Json.bool r.2.isNone)])
   | _ => none
 
 end Ops.C04
